@@ -35,6 +35,7 @@ func sendRun(reqs []rscp.Message, crc bool, now time.Time) (impl string, prop st
 	rscp.Now = func() time.Time { return now }
 	defer func() { rscp.Now = time.Now }()
 	wantBefore := msgsString(reqs)
+	about("send - - - " + wantBefore)
 	res := func() (s string) {
 		defer func() {
 			if r := recover(); r != nil {
@@ -142,6 +143,55 @@ func init() {
 				m := rscp.Message{Tag: rq[g.pick(len(rq))], DataType: rscp.None, Value: g.value(dt, 1, &b)}
 				sendCase(cw, []rscp.Message{m}, j == 0, g.time(), fmt.Sprintf("none-with-tag-typed-value dt=%d", dt))
 				sendCase(cw, []rscp.Message{{Tag: rscp.BAT_REQ_DATA, DataType: rscp.Container, Value: []rscp.Message{m}}}, j == 1, g.time(), fmt.Sprintf("none-with-tag-typed-value dt=%d nested", dt))
+			}
+		}
+		// a write that times out after 0 bytes (full socket buffer), on the authentication frame or on the request frame,
+		// then two more calls: whatever the client does, nothing may be written on that connection after the failed
+		// write (its cipher state has moved on, the peer's has not)
+		for _, at := range []int{1, 2} {
+			for rep := 0; rep < 3; rep++ {
+				cl, err := rscp.NewClient(rscp.ClientConfig{Address: "a", Username: "u", Password: "p", Key: "sendkey"})
+				if err != nil {
+					continue
+				}
+				pc := newPeerCipher("sendkey")
+				sc := &scriptConn{timeoutAt: at - 1 + 1}
+				sc.onWrite = func(k int, b []byte) [][]byte {
+					pl := frameBytes(itemBytes(uint32(rscp.RSCP_AUTHENTICATION), 3, []byte{10}), true, 1, 2)
+					if k > 0 {
+						pl = frameBytes(itemBytes(uint32(rscp.INFO_SERIAL_NUMBER), 13, []byte("x")), true, 1, 2)
+					}
+					ct := make([]byte, len(pl))
+					pc.enc.CryptBlocks(ct, pl)
+					return [][]byte{ct}
+				}
+				cl.VerifAttachConn(sc)
+				var res []string
+				for k := 0; k < 3; k++ {
+					func() {
+						defer func() {
+							if r := recover(); r != nil {
+								res = append(res, "panic")
+							}
+						}()
+						_, err := cl.SendMultiple(g.nonceRequest(k))
+						if err != nil {
+							res = append(res, "err "+clientErrClass(err))
+						} else {
+							res = append(res, "ok")
+						}
+					}()
+				}
+				prop := "pass"
+				if len(sc.afterFault) > 0 {
+					prop = fmt.Sprintf("FAIL C05 after a write that timed out the client goes on writing on the same connection (%d more frames): its frames can no longer be decrypted by the peer ;; FAIL C08 a failed write leaves the client connected", len(sc.afterFault))
+				}
+				for _, r := range res {
+					if r == "panic" {
+						prop = "FAIL * client panics after a write time-out"
+					}
+				}
+				cw.add("skip", "skip", fmt.Sprintf("N send write-timeout at=%d results=%s", at, strings.Join(res, ",")), prop)
 			}
 		}
 		vs := []int{65527, 65528, 65529, 65535, 65536, 65541, 131072, 131079}
